@@ -11,6 +11,8 @@ import traceback
 REGISTRY = {
     "C03": ("p_matryoshka", "C03"),
     "C04": ("p_matryoshka", "C04"),
+    "C07": ("p_resampler", "C07"),
+    "C08": ("p_resampler", "C08"),
     "C11": ("p_powermanager", "C11"),
     "C12": ("p_graphformulas", "C12"),
     "C14": ("p_powerdist", "C14"),
